@@ -852,7 +852,11 @@ class RTCPeerConnection(AsyncIOEventEmitter):
 
         # configure direction
         for t in self.__transceivers:
-            if description.type in ["answer", "pranswer"]:
+            # a transceiver which the offer does not cover is left alone
+            if (
+                description.type in ["answer", "pranswer"]
+                and t._offerDirection is not None
+            ):
                 t._setCurrentDirection(and_direction(t.direction, t._offerDirection))
 
         # gather candidates
